@@ -98,6 +98,8 @@ type Run struct {
 	merges  int
 	linFacts int
 	linRows  []*Term
+	clock    []*Term
+	lastPanic string
 }
 
 type intModeT struct{}
@@ -550,6 +552,9 @@ func (r *Run) recordViolation(label, msg string, m map[string]uint64) {
 	key := label
 	if r.knownCtx != "" {
 		key = "known:" + r.knownCtx + ":" + label
+	}
+	if r.lastPanic != "" {
+		msg += " (last Go panic on this path: " + r.lastPanic + ")"
 	}
 	v := &Violation{Harness: r.h.name, Label: label, Msg: msg, Known: r.knownCtx, Inputs: r.modelInputs(m), Choices: copyChoices(r.choices), Pos: r.curPos(), Path: r.pathString()}
 	r.h.mu.Lock()
